@@ -77,21 +77,32 @@ def py_equal(a, b):
         return False
 
 
+def _maybe_equal(a, b):
+    """Could an index take the two label values for the same label?  Equal values, values equal
+    across types (1 / True / 1.0), and any two missing markers (NaN, NaT of any kind, None: one
+    object conversion makes them the same None)."""
+    if isinstance(a, tuple) and isinstance(b, tuple):
+        return len(a) == len(b) and all(_maybe_equal(x, y) for x, y in zip(a, b))
+    if isinstance(a, tuple) or isinstance(b, tuple):
+        return False
+    if canon.is_missing(a) and canon.is_missing(b):
+        return True
+    ca, cb = cs(a), cs(b)
+    return ca == cb or py_equal(a, b) or leq(ca, cb)
+
+
 def unique_status(labels):
-    """'unique': pairwise different under Python equality and canonical form; 'dup': two
-    labels are the same value of the same type (an index must refuse them); 'unclear':
-    equal only across types (1 / True / 1.0) or repeated NaN/NaT, where whether an index
-    accepts them is the subject of C02, not of this property."""
+    """'unique': no two labels could be taken for the same label; 'dup': two labels are the
+    same value of the same type (an index must refuse them); 'unclear': equal only across types
+    or missing markers, where whether an index accepts them is the subject of C02."""
     status = 'unique'
     n = len(labels)
     cl = [cs(x) for x in labels]
     for i in range(n):
         for j in range(i + 1, n):
-            same_c = cl[i] == cl[j]
-            same_p = py_equal(labels[i], labels[j])
-            if same_c and same_p:
+            if cl[i] == cl[j] and py_equal(labels[i], labels[j]):
                 return 'dup'
-            if same_c or same_p or leq(cl[i], cl[j]):
+            if _maybe_equal(labels[i], labels[j]):
                 status = 'unclear'
     return status
 
